@@ -210,13 +210,11 @@ struct Sink {
 }
 impl std::fmt::Write for Sink {
     fn write_str(&mut self, s: &str) -> std::fmt::Result {
+        // the marker is written by the uuid shim in a call of its own (a String that contains it would
+        // be escaped by <str as Debug>), so looking at the first byte is enough - and loop-free
         let b = s.as_bytes();
-        let mut i = 0;
-        while i < b.len() {
-            if b[i] == 1 {
-                self.marker_seen = true;
-            }
-            i += 1;
+        if !b.is_empty() && b[0] == 1 {
+            self.marker_seen = true;
         }
         self.bytes += b.len();
         Ok(())
@@ -286,6 +284,7 @@ fn debug_body(only: IdK, pretty: bool) -> usize {
 // @bounds session state as C11 (keys {a,b}, 3 values, all state kinds); configuration and remaining ttl concrete (default config, no ttl threshold, 7 s)
 // @functions <Session as Debug>::fmt, <ServerState as Debug>::fmt, <ClientState as Debug>::fmt, <InvalidationFlag as Debug>::fmt, <SessionConfig as Debug>::fmt, <SessionStore as Debug>::fmt
 // @timeout 1500
+// @solver default
 #[kani::proof]
 #[kani::unwind(32)]
 #[kani::stub(std::fmt::Formatter::pad, pad_stub)]
@@ -300,6 +299,7 @@ fn c12_debug_redacts_id_existing_or_new() {
 // @bounds as c12_debug_redacts_id_existing_or_new
 // @functions <Session as Debug>::fmt and the Debug impls of its fields
 // @timeout 1500
+// @solver default
 #[kani::proof]
 #[kani::unwind(32)]
 #[kani::stub(std::fmt::Formatter::pad, pad_stub)]
